@@ -216,6 +216,13 @@ def main() -> int:
             rep.count("same_dir_rewrites")
             if (twice / "src" / "main.cpp").read_text(encoding="utf-8") != txt:
                 rep.violation(f"write_project into an existing project directory did not replace src/main.cpp by the new source {txt!r}", key="stale-main")
+        # ... or differs from it only in its line terminators / trailing blanks / case (compared byte for byte, as written)
+        for txt in ("a\r\nb\r\n", "a\nb\n", "a\rb\r", "a\nb\n", "a\nb", "a\nb \n", "A\nb \n", "a\nb\n\n", "\ufeffa\nb\n\n", "a\nb\n\n"):
+            pio.write_project(twice, txt, "COM3", platform="atmelavr", board="uno", lib_deps=["Servo"])
+            rep.count("same_dir_rewrites")
+            if (twice / "src" / "main.cpp").read_bytes() != txt.encode("utf-8"):
+                rep.violation(f"write_project into an existing project directory did not replace src/main.cpp by the new source {txt!r} "
+                              f"(file holds {(twice / 'src' / 'main.cpp').read_bytes()[:40]!r})", key="stale-main")
         import configparser as _cp
         for libs2 in (["LiquidCrystal", "Servo"], [], ["LiquidCrystal_I2C"]):
             pio.write_project(twice, "// third\n", "COM3", platform="atmelavr", board="uno", lib_deps=libs2)
